@@ -45,7 +45,14 @@ def mk_sep_penalty(h, name, p=2, step=None, weights=None, alpha=None, zero_weigh
             for j in range(p):
                 h.assume(weights[j] >= 0)
         if zero_weight is not None:
-            h.assume(weights[zero_weight] == 0)
+            zws = list(zero_weight) if isinstance(zero_weight, (list, tuple)) else [zero_weight]
+            for zw in zws:
+                h.assume(weights[zw] == 0)
+            if isinstance(zero_weight, (list, tuple)):
+                # a zero-weight LAYOUT: the other features are genuinely penalised
+                for j in range(p):
+                    if j not in zws:
+                        h.assume(weights[j] > 0)
         meta['weights'] = weights
     if base == 'L1':
         pen = h.penalty(Pm.L1, alpha=al, positive=positive)
@@ -123,6 +130,9 @@ XCAT = {
     'corr32': [[1, 1], [1, 2], [0, 1]],          # strongly correlated columns (needed for F11)
     'gen32': [[1, 0], [2, 1], [-1, 1]],          # generic full rank, negative entry
     'orth22': [[1, 1], [1, -1]],
+    'diag22': [[1, 0], [0, 2]],                  # orthogonal columns, unequal norms (global Lipschitz != coordinate ones)
+    'shear22': [[1, 2], [0, 1]],                 # |<X0,X1>| > ||X0||^2: off-diagonal curvature dominates a diagonal entry
+    'shear32': [[1, 3], [1, 0], [0, 1]],         # same, with a rational spectral norm (X^T X has eigenvalues 11 and 1)
     'tri22': [[1, 0], [1, 1]],                   # square, correlated columns                 # orthogonal, equal norms
     'wide23': [[1, 2, 0], [0, 1, 1]],            # n < p
     'dup32': [[1, 1], [2, 2], [1, 1]],           # duplicated column
@@ -134,6 +144,7 @@ XCAT = {
     'scale32': [[1024, 2 ** -10], [2048, 2 ** -9], [1024, -2 ** -10]],   # widely different scales (dyadic: exact in floats)
 'inv33': [[1, 0, 1], [2, 1, 0], [-1, 1, 1]],   # square, invertible
     'gen43': [[1, 0, 2], [2, 1, 0], [-1, 1, 1], [0, 2, -1]],
+    'gen34': [[1, 0, 2, 1], [2, 1, 0, -1], [-1, 1, 1, 0]],   # p = 4 > n: room for 2 penalised + 2 unpenalised features
     'corr33': [[1, 1, 0], [1, 2, 1], [0, 1, 1]],
     'zero_mid33': [[1, 0, 1], [2, 0, 0], [-1, 0, 1]],
 }
